@@ -10,6 +10,8 @@ F-DELIM  the text formats join fields with the delimiter they were given and spl
 F-2D     a matrix read from a text file is forced two-dimensional (ndmin=2 / atleast_2d / reshape) before it is handed to
          from_incidence_matrix, which destructures its shape.
 F-ATOMIC in write_hif / write_json the serialisation happens before the target file is opened for writing.
+F-MODE   the reader of a text format frames and decodes the file the way its writer frames and encodes it: both binary with
+         a per-line encode / decode (a text-mode reader applies universal newlines and strips only one byte-order mark).
 F-CAST   in the text parsers the node handed to the network comes from the node column through `nodetype` (raw only when
          nodetype is None) and the edge ID from the edge column through `edgetype` - followed through local helpers.
 F-MEMO   a conversion memo that outlives one call is keyed by everything the stored value depends on (a cache keyed by the
@@ -32,7 +34,7 @@ RW_MODULES = ["xgi.readwrite.hif", "xgi.readwrite.json", "xgi.readwrite.edgelist
 def run(ctx):
     repo = ctx.repo
     res = Result(PROP)
-    res.rules = ["F-DELEG", "F-FWD", "F-DELIM", "F-2D", "F-ATOMIC", "F-CAST", "F-MEMO", "T-KEYS", "T-DEF", "T-ATTRS", "T-CAST"]
+    res.rules = ["F-DELEG", "F-FWD", "F-DELIM", "F-2D", "F-ATOMIC", "F-CAST", "F-MEMO", "F-MODE", "T-KEYS", "T-DEF", "T-ATTRS", "T-CAST"]
     res.explanation = (
         "Narrow claim: the writer and the reader of each file format live in different functions; the rules check that both "
         "sides go through the paired dict converters unchanged, forward every parameter, use the delimiter they were given, "
@@ -52,6 +54,7 @@ def run(ctx):
     check_2d(repo, res, fns)
     check_atomic(repo, res, fns)
     check_cast(repo, res, fns)
+    check_mode(repo, res, fns)
     check_memo(repo, res, PROP, RW_MODULES)
     # the paired dict converters (shared with C10): a file round trip cannot succeed if they disagree
     from . import c10_convert
@@ -417,3 +420,33 @@ def check_memo(repo, res, prop, module_names):
                     if not ok:
                         res.add(mk_finding(prop, "F-MEMO", f, st, f"{f.qualname}: the memo table `{tab}` outlives a call of `{node.name}` and stores `{unparse(st.value, 40)}` under the key `{unparse(st.targets[0].slice, 30)}`, which omits {missing}; a later call with a different {'/'.join(missing)} gets the value converted for another one", role=tab))
     res.inst("F-MEMO", f"{n} functions (nested included) scanned for memo tables", True)
+
+
+def check_mode(repo, res, fns):
+    """Sibling agreement of writer and reader of the line-based text formats on file mode and per-line coding."""
+    def open_modes(fn):
+        out = []
+        for c in ast.walk(fn.node):
+            if isinstance(c, ast.Call) and getattr(c.func, "id", None) == "open":
+                mode = c.args[1].value if len(c.args) > 1 and isinstance(c.args[1], ast.Constant) else next((k.value.value for k in c.keywords if k.arg == "mode" and isinstance(k.value, ast.Constant)), "r")
+                out.append((c, mode))
+        return out
+
+    n = 0
+    for wname, rname in (("write_edgelist", "read_edgelist"), ("write_bipartite_edgelist", "read_bipartite_edgelist")):
+        w, r = fns.get(wname), fns.get(rname)
+        if w is None or r is None:
+            raise AnalysisError(f"{wname}/{rname} not found (anchor vanished)")
+        wm, rm = open_modes(w), open_modes(r)
+        if not wm or not rm:
+            raise AnalysisError(f"{wname}/{rname}: open() call not found (extractor does not recognise the code)")
+        n += 1
+        wbin = all("b" in m for _, m in wm)
+        rbin = all("b" in m for _, m in rm)
+        wenc = any(isinstance(c, ast.Call) and getattr(c.func, "attr", None) == "encode" for c in ast.walk(w.node))
+        rdec = any(isinstance(c, ast.Call) and getattr(c.func, "attr", None) == "decode" for c in ast.walk(r.node))
+        ok = (wbin == rbin) and (not wbin or (wenc == rdec))
+        res.inst("F-MODE", f"{wname} ({'binary' if wbin else 'text'}, per-line encode: {wenc}) / {rname} ({'binary' if rbin else 'text'}, per-line decode: {rdec})", ok)
+        if not ok:
+            res.add(mk_finding(PROP, "F-MODE", r, rm[0][0], f"{rname} opens the file in {'binary' if rbin else 'text'} mode{' and decodes line by line' if rdec else ''} while {wname} writes it in {'binary' if wbin else 'text'} mode{' encoding line by line' if wenc else ''}; text mode translates every \\r into a line break and strips a byte-order mark only once, so labels that contain \\r, or encodings that emit a BOM per line (utf-8-sig, utf-16), do not read back", role=rname))
+    res.floor("writer/reader pairs of line-based formats", n, 2)
